@@ -697,7 +697,7 @@ def shards(tier):
   n = len(work_items(tier))
   k = 48
   from vt.checks import c02_openloop
-  return [(i, k) for i in range(min(k, n))] + [("openloop", name) for name, *_ in c02_openloop.designs()]
+  return [(i, k) for i in range(min(k, n))] + [("openloop", name) for name, *_ in c02_openloop.designs()] + [("openloop", "cyclic")]
 
 
 def run_shard(shard, tier, seed):
@@ -705,7 +705,8 @@ def run_shard(shard, tier, seed):
   acc = Acc()
   if i == "openloop":
     from vt.checks import c02_openloop
-    c02_openloop.explore(tier, acc, only=k)
+    if k == "cyclic": c02_openloop.check_cyclic(acc)
+    else: c02_openloop.explore(tier, acc, only=k)
     return acc
   items = work_items(tier)
   irs = dict(irgen.all_designs())
@@ -728,7 +729,7 @@ def run_shard(shard, tier, seed):
 def replay(case):
   acc = Acc()
   mode = case.get("mode")
-  if mode == "openloop":
+  if mode in ("openloop", "openloop-cyclic"):
     from vt.checks import c02_openloop
     return c02_openloop.replay(case)
   if mode == "hw":
